@@ -166,6 +166,26 @@ NOT_APPLICABLE = {
 PENDING = []
 
 checks = []
+# added in the last stretch of the third session (DESIGN.md 9.8)
+LAST_STRETCH = {
+ 'C01': 'RegularArray::getitem_next(SliceJagged64) over a content longer than size * length (the content asked is exactly the reachable items, one (start, stop) pair per item); '
+        'ListOffsetArray{32,U32,64}::asslice (an array used as a slice item: zero-based offsets around what the reachable content answers).',
+ 'C02': 'Also: RegularArray::getitem_next(SliceJagged64) over a longer content, ListOffsetArray::asslice with any offsets origin, IndexedArray*::mergemany with every index class first and second, '
+        'bytemask() a canonical 0/1 byte in every option encoding.',
+ 'C03': 'IndexedArray64::reduce_next (no missing values) with shifts coming in from an enclosing list: they are handed on unchanged (argmax / argmin across ragged lists).',
+ 'C06': 'IndexedOptionArray64 / IndexedArray64::argsort_next called the way the enclosing list calls them for a sort across lists (groups = columns, incoming shifts from concrete ragged row shapes): '
+        'a missing value gets its row as position, the shifts reach the content; kernel awkward_ListOffsetArray_argsort_strings with the inlined std::sort / std::stable_sort on groups of <= 3 strings of <= 3 symbolic bytes: '
+        'permutation, byte-wise lexicographic order in the requested direction (every byte value, NUL included), equal strings keep their order when stable.',
+ 'C09': 'bytemask(): every byte 0 or 1 in every encoding.',
+ 'C10': 'RecordArray::field / fieldindex / haskey by key with util::fieldindex: a key is the field of that name, else the position it spells exactly ("0", "1", ...), else std::invalid_argument (haskey: false, never raises) - '
+        'keys with a numeric prefix, sign, blank, leading zero, beyond int, empty, and fields named by digits.',
+ 'C11': 'ListOffsetArray64::validityerror with the offsets a window into a longer buffer: the rule kernel (decided on its own above) is handed the window\'s starts and stops, the list count and the content length; '
+        'otherwise the content\'s answer is returned.',
+ 'C19': 'Every paused program template additionally with a word call()ed between each pause and its resume (same final state as the uninterrupted run); ForthOutputBuffer::rewind for every 64-bit count.',
+}
+for k_, v_ in LAST_STRETCH.items():
+    CLAIMED[k_]['text'] = CLAIMED[k_]['text'].rstrip() + ' Last stretch (DESIGN.md 9.8): ' + v_
+
 for pid, c in sorted(CLAIMED.items()):
     checks.append(dict(property_id=pid, quick_cmd='./vcheck %s --tier quick' % pid, thorough_cmd='./vcheck %s --tier thorough' % pid,
                        evidence_file='evidence/%s.json' % pid, replay_cmd_template='./vcheck %s --replay {path}' % pid,
